@@ -472,6 +472,18 @@ def script_search(ctx, shim, r, per_font):
                             "level 0 or 1 / flags / kern=0")
 
 
+def shaper_class(q):
+    """which family of shapers the text of a shape request goes to (by the blocks of its characters)"""
+    cps = [int(t.split(":")[0], 16) for t in q.split()[10].split(",") if t and t != "-"]
+    if any(0x0900 <= c <= 0x0D7F for c in cps): return "indic-shaper"
+    if any(0x1780 <= c <= 0x17FF or 0x1000 <= c <= 0x109F or 0xA9E0 <= c <= 0xA9FF or 0xAA60 <= c <= 0xAA7F for c in cps): return "khmer-myanmar-shaper"
+    if any(0x0590 <= c <= 0x08FF or 0x1800 <= c <= 0x18AF for c in cps): return "joining-hebrew-shaper"
+    if any(0x0E00 <= c <= 0x0EFF for c in cps): return "thai-shaper"
+    if any(0x1100 <= c <= 0x11FF or 0xAC00 <= c <= 0xD7FF for c in cps): return "hangul-shaper"
+    if any(c >= 0x0D80 and not (0x2000 <= c <= 0x2BFF) and not (0xE000 <= c <= 0xF8FF) for c in cps): return "use-or-default-shaper"
+    return "default-shaper"
+
+
 def run_shape_groups(ctx, shim, groups, stream, what):
     lines = [[reg] + [q for q, _ in reqs] for reg, reqs in groups]
     outs = vlib.run_groups(shim, lines, timeout=1200)
@@ -493,16 +505,17 @@ def run_shape_groups(ctx, shim, groups, stream, what):
                 dist["kern_off"] += 1
                 if meta[2] in ("r", "b"): dist["backward+kern_off"] += 1
             for kind, detail in check_shape(meta, gl):
-                key = (kind, "kern=0" if meta[4] else "kern", meta[2] in ("r", "b")) if stream == "shape-clusters" else (kind, f"level {meta[3]}")
+                key = (kind, "kern=0" if meta[4] else "kern", meta[2] in ("r", "b")) if stream == "shape-clusters" else (kind, f"level {meta[3]}", shaper_class(q))
                 found.setdefault(key, []).append((len(q), reg, q, meta, rep, detail))
     for key, lst in sorted(found.items(), key=lambda kv: str(kv[0])):
         lst.sort(key=lambda x: x[0])
         _, reg, q, meta, rep, detail = lst[0]
-        ctx.violation(f"shape(): output clusters violate C02 ({key[0]}, {key[1]}, {('backward' if key[2] else 'forward/guessed') + ' direction' if len(key) > 2 else stream}; "
+        ctx.violation(f"shape(): output clusters violate C02 ({key[0]}, {key[1]}, {(('backward' if key[2] else 'forward/guessed') + ' direction') if stream == 'shape-clusters' else stream + ' ' + str(key[2])}; "
                       f"{len(lst)} shapings, {len(set(x[1] for x in lst))} fonts): {detail}; input clusters {meta[1]}, "
                       f"output clusters {[g[1] for g in parse_shape(rep)]}",
                       {"stage": "search", "stream": stream, "font_line": reg, "request": q, "case": meta[0],
                        "input_clusters": meta[1], "dir": meta[2], "level": meta[3], "kern_off": meta[4], "kind": key[0],
+                       "class": shaper_class(q),
                        "observed": rep[:3000], "fonts": sorted(set(x[1].split()[2] for x in lst))[:40], "count": len(lst),
                        "more_examples": [{"font": x[1].split()[2], "request": x[2], "reply": x[4][:600]} for x in lst[1:6]]})
     ctx.note_search(stream, total, nontriv, crashed_or_aborted=crashed, distribution=dist,
